@@ -28,7 +28,8 @@ CONF = ['absent', 'none', 'value', 'raise_val', 'raise_type_inner', 'attr_attrer
         'raise_type_direct', 'static_value', 'instance_func_value']
 # 'nested' = a hook that itself adapts something else (which reaches the hook
 # stage again) before declining
-HOOK = ['none', 'v', 'raise', 'falsy', 'nested']
+# 'poplast' / 'clear' = a hook that uninstalls hooks while the hooks are being called
+HOOK = ['none', 'v', 'raise', 'falsy', 'nested', 'poplast', 'clear']
 ALT = ['absent', 'value', 'none_pos', 'value_kw', 'none_kw']
 # how the interface gets its __adapt__: the standard one ('std'; 'std+method'
 # = with an unrelated interfacemethod, which also creates a custom metaclass),
@@ -178,6 +179,13 @@ def make_hook(kind, i, I, obj):
             LOG.append('hook-wrong-args')
         if kind == 'none':
             return None
+        if kind == 'poplast':
+            if adapter_hooks:
+                adapter_hooks.pop()
+            return None
+        if kind == 'clear':
+            del adapter_hooks[:]
+            return None
         if kind == 'nested':
             # look at some unrelated object first; it cannot be adapted either,
             # and that adaptation runs through the hooks as well
@@ -223,8 +231,17 @@ def expected(conf, provided, hooks, alt, adapt):
     if adapt == 'std':
         if provided != 'no':
             return ('ok', 'OBJ', lg)
-        for i, h in enumerate(hooks):
+        # the hook list is walked live, like ``for hook in adapter_hooks``
+        live = list(enumerate(hooks))
+        pos = 0
+        while pos < len(live):
+            i, h = live[pos]
+            pos += 1
             lg.append('hook%d' % i)
+            if h == 'poplast' and live:
+                live.pop()
+            if h == 'clear':
+                del live[:]
             if h == 'v':
                 res = 'H%d' % i
                 break
